@@ -42,6 +42,7 @@ func lenZeroGuard(fn *ssa.Function, pname string) []guard {
 
 func checkC18(c *Ctx) {
 	l := c.L
+	checkIteratorAccessorsPure(c, "PURE-iterator-accessors")
 	c.rule("SIB-empty-key", "every backend method rejects an empty key / nil value before touching its store", 30)
 	c.rule("FLOW-prefix-confinement", "PrefixDB hands only prefixed keys to the wrapped store and strips exactly the prefix", 12)
 	c.rule("TYPESTATE-batch", "a written batch is closed; a closed batch rejects use", 8)
